@@ -42,6 +42,11 @@ ASSUMPTIONS = [
     "DESIGN's wording); unwritten elements of a partially written output "
     "array are not compared",
     "over-approximation by PSyclone (extra inputs / outputs) is allowed",
+    "regions for which PSyclone produces no lists are not judged: "
+    "NotImplementedError of VariablesAccessInfo ('variable appears more than "
+    "once on the left-hand side', e.g. ib(ib(1)) = ..., and - with the "
+    "COLLECT-ARRAY-SHAPE-READS option ExtractTrans sets - every a(2:) = ... "
+    "or a(:) = ...) is counted under 'discarded'",
 ]
 
 PROFILE = gf.make_profile(
@@ -118,12 +123,14 @@ def run(ctx):
                         err.case["region_source"] = res.text
                     raise
 
-    total = ctx.scale(900, 30000)
+    # about 25 regions per program; a region costs ~20-40 ms (tree copy +
+    # ExtractNode lowering + 3 hooked interpreter runs)
+    total = ctx.scale(800, 20000)
     ctx.hyp(prop, gf.programs(PROFILE), max_examples=max(3, total * 3 // 5),
-            key=lambda p: p.module_source)
+            key=lambda p: p.module_source, shrink_budget=60)
     ctx.hyp(prop, gf.programs(PROFILE_DENSE),
             max_examples=max(3, total * 2 // 5), salt=50,
-            key=lambda p: p.module_source)
+            key=lambda p: p.module_source, shrink_budget=60)
 
 
 def replay(case):
